@@ -162,6 +162,10 @@ func kinds(thorough bool) []kindSpec {
 		}
 		strs = append(strs, rv(s))
 	}
+	// text that looks percent-encoded, or holds '+': its measure is its own rune count on every entry point
+	for _, x := range []string{"%41%42%43", "50%25off", "%E4%B8%AD", "100%", "1+1", "a%2Bb", "%%%", "%4", "+", "a+b+c+d"} {
+		strs = append(strs, rv(x))
+	}
 	ks = append(ks, kindSpec{"string", strs})
 	win := func() []int64 {
 		var w []int64
@@ -382,6 +386,9 @@ func run(c *runner.Ctx) {
 						ruleText = fmt.Sprintf("%s=%d~%d", r.name, b[0], b[1])
 					}
 					for _, v := range k.values {
+						if !carrier.Supports(car, v) { // e.g. '%' and '+' cannot be carried raw in a URL
+							continue
+						}
 						evalOne(c, r.name, k.name, car, ruleText, b[0], b[1], v)
 					}
 					c.Sample(func() interface{} {
